@@ -10,6 +10,7 @@ Every check must stay silent (exit 0) on each rewritten copy of /repo/teneva:
   kwargs    positional arguments of calls of teneva functions -> keywords
   swapstmt  adjacent independent, side-effect free assignments are swapped
   tmpvar    x = f(g(a), ..)  ->  t = g(a); x = f(t, ..)   (first argument)
+  comp2loop x = [e for v in it]  ->  x = []; for v in it: x.append(e)
 
 The copies live under a fresh temporary directory which is removed at the end.
 Usage: /venv/bin/python tools/global_twins.py [kind ...] [--props C01,C02]
@@ -251,9 +252,54 @@ class TmpVar(ast.NodeTransformer):
         return node
 
 
+class Comp2Loop(ast.NodeTransformer):
+    """Plain single-generator list comprehensions bound to a name that does
+    not occur in the comprehension itself."""
+
+    def _block(self, stmts):
+        out = []
+        for st in stmts:
+            if isinstance(st, ast.Assign) and len(st.targets) == 1 and \
+                    isinstance(st.targets[0], ast.Name) and \
+                    isinstance(st.value, ast.ListComp) and \
+                    len(st.value.generators) == 1 and \
+                    not st.value.generators[0].is_async:
+                g = st.value.generators[0]
+                name = st.targets[0].id
+                used = {x.id for x in ast.walk(st.value)
+                        if isinstance(x, ast.Name)}
+                inner = any(isinstance(x, (ast.ListComp, ast.GeneratorExp,
+                                           ast.Lambda))
+                            for x in ast.walk(st.value.elt))
+                if name not in used and not inner:
+                    body = ast.Expr(value=ast.Call(
+                        func=ast.Attribute(
+                            value=ast.Name(id=name, ctx=ast.Load()),
+                            attr='append', ctx=ast.Load()),
+                        args=[st.value.elt], keywords=[]))
+                    for cond in reversed(g.ifs):
+                        body = ast.If(test=cond, body=[body], orelse=[])
+                    out.append(ast.Assign(
+                        targets=[ast.Name(id=name, ctx=ast.Store())],
+                        value=ast.List(elts=[], ctx=ast.Load())))
+                    out.append(ast.For(target=g.target, iter=g.iter,
+                                       body=[body], orelse=[]))
+                    continue
+            out.append(st)
+        return out
+
+    def generic_visit(self, node):
+        super().generic_visit(node)
+        for name in ('body', 'orelse', 'finalbody'):
+            blk = getattr(node, name, None)
+            if isinstance(blk, list) and blk and isinstance(blk[0], ast.stmt):
+                setattr(node, name, self._block(blk))
+        return node
+
+
 KINDS = {'unparse': None, 'rename': Rename, 'flipcmp': FlipCmp,
          'flipif': FlipIf, 'elsewrap': ElseWrap, 'kwargs': Kwargs,
-         'swapstmt': SwapStmt, 'tmpvar': TmpVar}
+         'swapstmt': SwapStmt, 'tmpvar': TmpVar, 'comp2loop': Comp2Loop}
 
 
 def _collect_sigs():
